@@ -166,7 +166,7 @@ Theorem T02_event_reaches_connection : forall cap h x evs, x <> [] ->
   let s := relay_run cap sse_flush_patterns false (relay_init cap sse_flush_patterns (h ++ [x])) evs in
   forall e1 e2 a c, In e1 eols -> In e2 eols -> concat (rs_reads s) = a ++ (e1 ++ e2) ++ c ->
     exists rest, delivered s = concat (h ++ [x]) ++ a ++ (e1 ++ e2) ++ rest.
-Proof. exact (event_reaches_connection ob_flush_checks_straddle ob_flush_checks_contains sse_flush_patterns
+Proof. exact (event_reaches_connection ob_flush_checks_straddle ob_flush_checks_contains ob_flush_after_write sse_flush_patterns
                ob_sse_has_lflf ob_sse_has_crcr ob_sse_has_lfcr ob_sse_has_crlf ob_sse_patterns_nonzero). Qed.
 Print Assumptions T02_event_reaches_connection.
 
@@ -178,7 +178,7 @@ Theorem T02_sent_event_delivered : forall cap h x evs, x <> [] ->
   rs_avail s = [] ->
   forall e1 e2 a c, In e1 eols -> In e2 eols -> arrived_of evs = a ++ (e1 ++ e2) ++ c ->
     exists rest, delivered s = concat (h ++ [x]) ++ a ++ (e1 ++ e2) ++ rest.
-Proof. exact (sent_event_delivered ob_flush_checks_straddle ob_flush_checks_contains sse_flush_patterns
+Proof. exact (sent_event_delivered ob_flush_checks_straddle ob_flush_checks_contains ob_flush_after_write sse_flush_patterns
                ob_sse_has_lflf ob_sse_has_crcr ob_sse_has_lfcr ob_sse_has_crlf ob_sse_patterns_nonzero). Qed.
 Print Assumptions T02_sent_event_delivered.
 
@@ -192,8 +192,8 @@ Theorem T02_chunk_reaches_connection : forall cap head evs,
    rs_reads s <> [] ->
    bw_buf (rs_bw s) = [] /\ delivered s = concat head ++ concat (flat_map chunk_writes (rs_reads s))).
 Proof. exact (fun cap head evs =>
-  conj (chunk_reaches_connection ob_flush_checks_contains cap chunk_flush_patterns head evs ob_chunk_has_crlf)
-       (chunk_reaches_connection ob_flush_checks_contains cap sse_flush_patterns head evs ob_sse_has_crlf)). Qed.
+  conj (chunk_reaches_connection ob_flush_checks_contains ob_flush_after_write cap chunk_flush_patterns head evs ob_chunk_has_crlf)
+       (chunk_reaches_connection ob_flush_checks_contains ob_flush_after_write cap sse_flush_patterns head evs ob_sse_has_crlf)). Qed.
 Print Assumptions T02_chunk_reaches_connection.
 
 (* After the writes that follow the body and the final Flush of writeResponse everything is on
